@@ -82,6 +82,20 @@ def run(ctx):
                 r = logsgen.variant(rng, rng.choice(chunk), tag)
             if r is None:
                 r = logsgen.gen_record(rng, tag, profile=prof, tame=rng.random() < 0.8)
+            if r["cls"] == "file" and "variant_of" not in r and rng.random() < 0.08 and "/" in r["values"].get("name", ""):
+                # two accesses to names that differ only in letter case or in the zero padding of a number: distinct files, both
+                # must keep their rule
+                sa, sb = rng.choice([("-n7", "-n07"), ("-xa", "-xA"), ("-v10", "-v010"), ("-Rc", "-rc")])
+                tag += 1
+                twin = dict(r)
+                ts2 = logsgen.tagstr(tag)
+                twin["fields"] = [(k, v + sb if k == "name" else ("c" + ts2 if k == "comm" else v)) for (k, v) in r["fields"]]
+                twin.update({"tag": tag, "values": dict(twin["fields"]), "name_tag": r["tag"], "twin_suffix": sb})
+                r["fields"] = [(k, v + sa if k == "name" else v) for (k, v) in r["fields"]]
+                r["values"] = dict(r["fields"])
+                r["twin_suffix"] = sa
+                chunk.append(r)
+                r = twin
             chunk.append(r)
         recs += chunk
         batches.append((prof, chunk))
@@ -174,6 +188,8 @@ def check_record(ctx, r, v, rules, audit, pending):
         mask = v["requested_mask"]
         kind = "link" if mask == "l" else "file"
         cands = [x for x in rules if x["kind"] == kind and has_tag(F(x).get("Path", ""), "zq", tagstr)]
+        if r.get("twin_suffix"):
+            cands = [x for x in cands if F(x).get("Path", "").endswith(r["twin_suffix"])]
         if not cands:
             return (False, "no-rule: no %s rule for %s" % (kind, name), False)
         ok_any = False
